@@ -7,6 +7,7 @@ All statements hold for every input, every schedule (`nbrs`, `coinc`) and every 
 import CBV.Model.C01
 import CBV.Lemmas.C01Own
 import CBV.Lemmas.C01Sched
+import CBV.Model.C01Order
 
 namespace CBV.Prop
 
@@ -190,6 +191,25 @@ theorem T_C01_built_schedule_ok (inp : Inp) :
     rw [ha, hn]
     exact ⟨by omega, hnb.2.2⟩
 
+/-! ### round 6: the statement order of the source, regenerated with `ast` on every run -/
+
+/-- the outlines the model was written against, paired with the outlines `cbv/tables/c01.py` reads from the current
+    source text (`ast`) -/
+def orderPairs : List (Order.Outline × Order.Outline) :=
+  [(Order.meshGrade, CBV.Gen.c01OrdMeshGrade), (Order.gradeBlocks, CBV.Gen.c01OrdGradeBlocks), (Order.propagate, CBV.Gen.c01OrdPropagate),
+   (Order.listCheck, CBV.Gen.c01OrdListCheck), (Order.blockGrade, CBV.Gen.c01OrdBlockGrade), (Order.blockCopy, CBV.Gen.c01OrdBlockCopy),
+   (Order.blockCheck, CBV.Gen.c01OrdBlockCheck), (Order.axisCopy, CBV.Gen.c01OrdAxisCopy), (Order.axisAligned, CBV.Gen.c01OrdAxisAligned),
+   (Order.axisChop, CBV.Gen.c01OrdAxisChop), (Order.chopGrade, CBV.Gen.c01OrdChopGrade), (Order.chopReset, CBV.Gen.c01OrdChopReset),
+   (Order.propGrade, CBV.Gen.c01OrdPropGrade), (Order.propReset, CBV.Gen.c01OrdPropReset),
+   (Order.copyNeighbours, CBV.Gen.c01OrdCopyNeighbours), (Order.propagateGrading, CBV.Gen.c01OrdPropagateGrading),
+   (Order.check, CBV.Gen.c01OrdCheck), (Order.baseReset, CBV.Gen.c01OrdBaseReset), (Order.isSimple, CBV.Gen.c01OrdIsSimple),
+   (Order.length, CBV.Gen.c01OrdLength)]
+
+/-- tie to the source: statement for statement (order, nesting, loop headers, conditions, calls), the twenty methods on
+    the execution path of `Mesh.grade` read as the model mirrors them.  Re-proved on every run against the outlines
+    regenerated from the current source. -/
+theorem T_C01_order : orderPairs.all (fun p => p.1 == p.2) = true := by decide
+
 end CBV.Prop
 
 /-! ### non-vacuity: concrete inputs on which `run` succeeds / fails as the theorems' hypotheses need -/
@@ -232,5 +252,10 @@ example : Fam (twoBoxes 5 0) 5 16 :=
 /-- the hand-written schedule of the two boxes is the one the model builds from their vertex indexes -/
 example : (List.range 6).map (builtNbrs (twoBoxes 5 0)) = (List.range 6).map (twoBoxes 5 0).nbrs ∧
     (List.range 24).map (builtCoinc (twoBoxes 5 0)) = (List.range 24).map (twoBoxes 5 0).coinc := by decide +kernel
+
+/-- the order is not a formality: on the well-posed two boxes the consistency check applied *before* the propagation
+    (to the state `grade_blocks` leaves) fails, while the run in the order of the source succeeds -/
+example : checkAll (twoBoxes 5 0) (gradeBlocks (twoBoxes 5 0) (init (twoBoxes 5 0))) = false ∧
+    (match run (twoBoxes 5 0) with | .ok _ => true | .error _ => false) = true := by decide +kernel
 
 end CBV.Prop.Examples
